@@ -42,6 +42,7 @@ class Ctx:
         self.notes = []
         self.cover = set()
         self.fork_sites = getattr(stats, "fork_sites", None)
+        self.deadline = getattr(stats, "deadline", None)
         self.side_obligations = []     # (name, goal, pc snapshot): loop-init / loop-step / loop-variant
 
     # -- naming ------------------------------------------------------------------------------
